@@ -521,6 +521,9 @@ pub struct Profile {
     /// bias towards several rotation cycles per type: slots with several tracks, a generous
     /// maintenance distance (so that every maintained vehicle opens its own cycle), few types
     pub maint_heavy: bool,
+    /// bias towards non-transitive reachability: a long minimal shunting at the same station but
+    /// free and instant dead-heads between different stations (a -> x -> b feasible, a -> b not)
+    pub non_transitive: bool,
 }
 
 impl Profile {
@@ -536,6 +539,7 @@ impl Profile {
             span_steps: 24,
             max_demand_factor: 2,
             maint_heavy: false,
+            non_transitive: false,
         }
     }
     pub fn medium() -> Profile {
@@ -550,6 +554,7 @@ impl Profile {
             span_steps: 60,
             max_demand_factor: 4,
             maint_heavy: false,
+            non_transitive: false,
         }
     }
     pub fn maint_heavy() -> Profile {
@@ -564,6 +569,7 @@ impl Profile {
             span_steps: 40,
             max_demand_factor: 2,
             maint_heavy: true,
+            non_transitive: false,
         }
     }
 }
@@ -726,7 +732,14 @@ pub fn gen_instance(rng: &mut Rng, p: &Profile) -> Inst {
             dh_dist[a][b] = dist;
         }
     }
-    let (shunt_min, shunt_dh) = *rng.pick(&[(0u64, 0u64), (0, 0), (0, 300), (0, 600), (300, 300), (600, 600), (600, 0)]);
+    if p.non_transitive {
+        for a in 0..nlocs {
+            for b in 0..nlocs {
+                dh_dur[a][b] = 0;
+            }
+        }
+    }
+    let (shunt_min, shunt_dh) = if p.non_transitive { (*rng.pick(&[1200u64, 1800, 2400]), 0) } else { *rng.pick(&[(0u64, 0u64), (0, 0), (0, 300), (0, 600), (300, 300), (600, 600), (600, 0)]) };
     let max_dist = if maint.is_empty() && rng.chance(50) {
         0
     } else if p.maint_heavy {
